@@ -47,6 +47,7 @@ def run_case(case, fmt, tmp, select=False):
     fmt, _, flag = fmt.partition("+")
     nested = flag == "nested"
     falsy = flag == "falsy"
+    keys = flag == "keys"        # every value comes with a key of its own ({"k": v, "only<v>": True}): different values have different key sets
     reorder = flag == "reorder"  # the metadata has two entries and the caller rebuilds the dict with the keys in the other order between writes (equal value)      # the value is accompanied by entries whose values are falsy (0, False, "", None, []): they are part of the metadata
     root = Path(tmp) / "d"
     if root.exists():
@@ -58,6 +59,7 @@ def run_case(case, fmt, tmp, select=False):
             shard_file_type=fmt, compression="", examples_per_shard=case["eps"],
             hash_checksum_algorithms=("sha256",)))
     objs = {}
+    nfail = 0
     raised = []
     error = None
     try:
@@ -75,20 +77,26 @@ def run_case(case, fmt, tmp, select=False):
                                 d.update(FALSY)
                             if reorder:
                                 d["tag"] = "x"
+                            if keys:
+                                d[f"only{op[2]}"] = True
                     raised.append(False)
                 else:
                     _, split, o, ok = op
                     cm = None if o is None else objs.setdefault(o, {})
                     if reorder and cm and i % 2:
                         cm = dict(reversed(list(cm.items())))      # an equal dict whose keys were inserted in the opposite order
+                    extra = {}
                     if ok:
                         val = np.array([i], np.int32)
+                    elif fmt in ("npz", "tfrec") and (nfail := nfail + 1) % 2:
+                        val = np.array([i], np.int32)              # a right value together with an attribute that was never declared: rejected by the writer itself
+                        extra = {"zz": np.array([i], np.int32)}
                     elif fmt == "tfrec" and i % 2:
                         val = np.array([i + 0.5], np.float64)      # right shape, wrong dtype kind: rejected inside the writer, after its file was opened
                     else:
                         val = np.array([i, i], np.int32)           # wrong shape: rejected by the common check before the writer is called
                     try:
-                        f.write_example(values={"a": val}, split=SPLITS[split], custom_metadata=cm)
+                        f.write_example(values=dict({"a": val}, **extra), split=SPLITS[split], custom_metadata=cm)
                         raised.append(False)
                     except Exception as ex:  # noqa: BLE001 - the caller of the model catches everything
                         raised.append(type(ex).__name__)
@@ -110,6 +118,8 @@ def run_case(case, fmt, tmp, select=False):
             k = kval(sh.custom_metadata)
             if reorder and k and dict(sh.custom_metadata) != {"k": k, "tag": "x"}:
                 k = -1
+            if keys and k and dict(sh.custom_metadata) != {"k": k, f"only{k}": True}:
+                k = -1          # the recorded metadata has entries of another value
             if falsy and k and dict(sh.custom_metadata) != dict({"k": k}, **FALSY):
                 k = -1          # the recorded metadata is not the value that was written (some entries are missing or changed)
             out.append([sh.number_of_examples, ex, k])
